@@ -1,5 +1,6 @@
 import Driver.FlowMon
 import OidcModel.Model.Flow
+import Driver.C07Wire
 open Kv Drv
 
 namespace Drv.Flow
@@ -73,12 +74,17 @@ def modelStep (m : ModSt) (l : Line) (now : Int) : ModSt × String :=
   | "callback" =>
     let (s, o) := _root_.Flow.step now m.st (.callback (str l "id") (if str l "obs" == "code" then str l "o.code" else "c?"))
     ({ m with st := s }, showOut o)
+  | "reregister" =>
+    -- deep3-C07: a registration is replaced
+    ({ m with st := _root_.Flow.reRegister m.st (parseClient l "cl.0.") }, "done")
   | "exchange" =>
+    if has l "w.body" then let (s, o) := Wire.modelToken now m.st m.router l; ({ m with st := s }, o) else   -- deep3-C07: the request as it travelled
     let op := if bool l "fault.delete" then _root_.Flow.Op.exchangeDeleteFails m.router (accessReq l) (str l "auth" == "assertion")
               else .exchange m.router (accessReq l) (str l "auth" == "assertion")
     let (s, o) := _root_.Flow.step now m.st op
     ({ m with st := s }, showOut o)
   | "refresh" =>
+    if has l "w.body" then let (s, o) := Wire.modelToken now m.st m.router l; ({ m with st := s }, o) else   -- deep3-C07
     let (s, o) := _root_.Flow.step now m.st (.refresh m.router (refreshReq l) (str l "auth" == "assertion"))
     ({ m with st := s }, showOut o)
   | _ => (m, "?")
@@ -89,8 +95,8 @@ def step (prop : String) (fs : FullSt) (l : Line) : FullSt × String :=
   let (m0, o0) := modelStep fs.mod l (int l "now0")
   let (_, o1) := modelStep fs.mod l (int l "now1")
   let stable := o0 == o1
-  let obsS := showObs l
-  let agree := !stable || str l "op" == "reset" || str l "op" == "login" || o0 == obsS
+  let obsS := if has l "w.body" then Wire.showObsX l else showObs l
+  let agree := !stable || str l "op" == "reset" || str l "op" == "login" || str l "op" == "reregister" || o0 == obsS
   ({ mon := mon', mod := m0 },
    s!"case={str l "case"} class={str l "op"}:{obsString l} model={if stable then o0 else "unstable"} observed={obsS} monitor={showMon v} agree={if agree then 1 else 0}")
 
